@@ -174,6 +174,23 @@ def r2(ctx, chk):
            "fewer than three validation failures are raised (unknown key / type / value)",
            key={"function": cs.key, "construct": "three raise statements"}, file=cs.file, function=cs.qual,
            line=cs.node.lineno)
+    loops = [s for s in iter_own_stmts(cs.node.body) if isinstance(s, ast.For)]
+    chk.floor(rule + ".loops", len(loops), 2, "loops over the caller's settings in check_settings")
+    for lp in loops:
+        early = [x for x in ast.walk(ast.Module(body=lp.body, type_ignores=[])) if isinstance(x, (ast.Return, ast.Break))]
+        chk.ob(rule, "check_settings: the loop `for %s in %s` examines every setting (no return/break in its body)" % (
+            ast.unparse(lp.target), ast.unparse(lp.iter)[:40]), not early,
+            "the loop can stop before the remaining settings were validated (line %s): an invalid setting listed later is accepted"
+            % [x.lineno for x in early],
+            key={"function": cs.key, "construct": "validation loop runs to completion: " + ast.unparse(lp.iter)[:40]},
+            file=cs.file, function=cs.qual, line=lp.lineno)
+    for helper in ("_check_repeated_values", "_check_require_part", "_check_parsers", "_check_default_languages", "_check_between_0_and_1"):
+        h = ctx.ix.funcs.get("dateparser.conf:" + helper)
+        if h is None:
+            continue
+        has_raise = any(isinstance(x, ast.Raise) for x in iter_own_nodes(h.node))
+        chk.ob(rule, "%s can reject (raises SettingValidationError)" % helper, has_raise, "the extra check never raises",
+               key={"function": h.key, "construct": "extra check raises"}, file=h.file, function=h.qual, line=h.node.lineno)
     src = [s for s in iter_own_stmts(cs.node.body) if isinstance(s, ast.Assign) and "_mod_settings" in ast.unparse(s.value)]
     chk.ob(rule, "check_settings iterates the caller's modified settings (settings._mod_settings)", bool(src), "",
            key={"function": cs.key, "construct": "reads _mod_settings"}, file=cs.file, function=cs.qual,
